@@ -504,6 +504,277 @@ static int vital_main (int argc, char **argv) {
   return rc;
 }
 
+/* ------------------------------------------------------------------ part "tick": a backend tick (the real call_heart_beat(): heart-beat
+ * round, reset()/clean_up() sweep, call_out sweep) in which two objects' heart beats run and THEN a callback of a third object raises:
+ * call_out by name / by funptr, reset(), clean_up(); genuine error() and a fault at every dispatch k of the callback; the tick is entered
+ * as backend() does.  As-before comparison: registers, both heart beats still on and beating in the next tick, probe. */
+extern void vw_call_heart_beat (void);
+static const char *tick_kind_name[] = { "call_out-by-name", "call_out-by-funptr", "reset", "clean_up" };
+typedef struct { int kind; int n; } ticksc_t;
+static ticksc_t *ticksc; static long *tickcum; static long nticksc;
+static object_t *tick_h1, *tick_h2, *tick_t;
+
+static int tick_once (void) {
+  error_context_t econ; int err = 0;
+  hx_clock += 10; current_time = hx_clock;
+  heart_beat_flag = 1;
+  save_context (&econ);
+  if (setjmp (econ.context)) { restore_context (&econ); err = 1; }
+  else { eval_cost = CONFIG_INT (__MAX_EVAL_COST__); vw_call_heart_beat (); }
+  pop_context (&econ);
+  return err;
+}
+static long tick_int (object_t *o, const char *fn) { svalue_t *r = hx_apply (o, fn, 0); return r && r->type == T_NUMBER ? (long) r->u.number : -99; }
+
+static void tick_run (ticksc_t *sc, long k, int genuine, int measuring) {
+  vm_snap s0, s1;
+  snprintf (vm_ctx_desc, sizeof vm_ctx_desc, "tick callback=%s %s k=%ld", tick_kind_name[sc->kind], genuine ? "error()" : "fault", k);
+  if (!measuring) vx_obs ("%s", vm_ctx_desc);
+  tick_h1 = hx_load ("/c05/hb", 0);
+  tick_t = hx_load ("/c05/tk", 0);
+  if (!tick_h1 || !tick_t) { if (!measuring) vm_fail ("C05:harness:tick-objects", "cannot load: %s", hx_last_error); return; }
+  /* two clones: cloning switches the heart beat of the blueprint itself off */
+  tick_h1 = tick_h2 = 0;
+  { error_context_t e; save_context (&e); if (!setjmp (e.context)) { current_object = master_ob; tick_h1 = clone_object ("/c05/hb", 0); tick_h2 = clone_object ("/c05/hb", 0); current_object = 0; } else restore_context (&e); pop_context (&e); }
+  if (!tick_h1 || !tick_h2) { if (!measuring) vm_fail ("C05:harness:tick-objects", "cannot clone /c05/hb"); return; }
+  add_ref (tick_h1, "harness"); add_ref (tick_h2, "harness"); add_ref (tick_t, "harness");
+  push_number (sc->kind); push_number (genuine);
+  svalue_t *sp0 = sp - 2;
+  if (!hx_apply (tick_t, "arm", 2) && sp > sp0) pop_n_elems ((size_t) (sp - sp0));
+  /* reset() and clean_up() are only due in an object that has been used and is old enough */
+  if (sc->kind < 2) tick_t->flags &= ~(O_WILL_RESET | O_WILL_CLEAN_UP); else if (sc->kind == 2) tick_t->flags &= ~O_WILL_CLEAN_UP; else tick_t->flags &= ~O_WILL_RESET;
+  safe_apply_master_ob ("clear_errors", 0);
+  long b1 = tick_int (tick_h1, "query_beats"), b2 = tick_int (tick_h2, "query_beats");
+  vm_snap_take (&s0);
+  vm_ignore_fields = measuring ? ~0u : 0; vm_changed_fields = 0;
+  vm_fault_object = tick_t;
+  vm_hook_arm (k, k ? VM_INJ_ERROR : VM_INJ_NONE, vw_ec_depth () + 1);
+  vm_noinj_name = "genuine-error";
+  int err = tick_once ();
+  vm_hook_disarm ();
+  vm_fault_object = 0;
+  vm_snap_take (&s1);
+  sc->n = (int) vm_insn_in_object ();
+  if (measuring) return;
+  long fired = tick_int (tick_t, "query_fired");
+  vx_obs ("  -> tick %s, callback ran %ld time(s), %ld instructions in it", err ? "abandoned by an error" : "completed", fired, vm_insn_in_object ());
+  if (k && !vm_fired) vm_fail ("C05:harness:fault-not-reached", "dispatch %ld of the callback was never reached [%s]", k, vm_ctx_desc);
+  if (vm_insn_in_object () < 1) vm_fail ("C05:harness:tick-callback-did-not-run", "the %s callback did not run in the tick [%s]", tick_kind_name[sc->kind], vm_ctx_desc);
+  vx_count (0, 1);
+  char scope[100]; snprintf (scope, sizeof scope, "tick:%s", tick_kind_name[sc->kind]);
+  if (vm_selftest == 7) s1.chb = tick_h1;
+  vm_snap_diff (&s0, &s1, 0, 1, scope, vm_ctx_desc);
+  /* the other objects' heart beats: ran in this tick, still on, run again in the next tick */
+  long c1 = tick_int (tick_h1, "query_beats"), c2 = tick_int (tick_h2, "query_beats");
+  long on1 = tick_int (tick_h1, "query_hb"), on2 = tick_int (tick_h2, "query_hb");
+  tick_once ();
+  long d1 = tick_int (tick_h1, "query_beats"), d2 = tick_int (tick_h2, "query_beats");
+  if (vm_selftest == 8) on2 = 0;
+  if (c1 != b1 + 1 || c2 != b2 + 1 || on1 < 1 || on2 < 1 || d1 != c1 + 1 || d2 != c2 + 1) {
+    char key[160]; snprintf (key, sizeof key, "C05:heart-beat-of-another-object-changed:tick:%s", tick_kind_name[sc->kind]);
+    vm_fail (key, "beats %ld,%ld -> %ld,%ld -> %ld,%ld; query_heart_beat %ld,%ld (an error in a %s callback must leave other objects' heart beats alone) [%s]",
+             b1, b2, c1, c2, d1, d2, on1, on2, tick_kind_name[sc->kind], vm_ctx_desc);
+  }
+  /* stop the heart beats, then the probe */
+  tick_h1->flags |= 0; { error_context_t e; save_context (&e); if (!setjmp (e.context)) { set_heart_beat (tick_h1, 0); set_heart_beat (tick_h2, 0); } else restore_context (&e); pop_context (&e); }
+  char pt[16384];
+  vm_clear_hooks ();
+  vm_probe (pt, sizeof pt);
+  if (strcmp (pt, ref_probe)) {
+    char tag[60], msg[400], key[120];
+    first_diff (ref_probe, pt, tag, sizeof tag, msg, sizeof msg);
+    snprintf (key, sizeof key, "C05:probe:%s", tag);
+    vm_fail (key, "probe transcript differs from a fresh driver: %s [%s]", msg, vm_ctx_desc);
+  }
+}
+/* element = (kind, k): k = 0 is the genuine error() in the callback, k >= 1 the fault at dispatch k of the callback */
+static void tick_decode (long idx, long *s, long *k) {
+  long lo = 0, hi = nticksc;
+  while (hi - lo > 1) { long mid = (lo + hi) / 2; if (tickcum[mid] <= idx) lo = mid; else hi = mid; }
+  *s = lo; *k = idx - tickcum[lo];
+}
+static void tick_elem1 (long idx) { long s, k; tick_decode (idx, &s, &k); tick_run (&ticksc[s], k, k == 0, 0); }
+static void tick_elem (long idx) {
+  long s, k; tick_decode (idx, &s, &k);
+  snprintf (vm_ctx_desc, sizeof vm_ctx_desc, "tick callback=%s k=%ld", tick_kind_name[ticksc[s].kind], k);
+  vm_run_isolated (tick_elem1, idx);
+}
+static void tick_describe (long idx, char *buf, size_t len) {
+  long s, k; tick_decode (idx, &s, &k);
+  snprintf (buf, len, "tick=%d/%ld\ntick with two heart-beat objects, then a %s callback of a third object %s", ticksc[s].kind, k, tick_kind_name[ticksc[s].kind],
+            k ? "gets a fault at that dispatch" : "calls error()");
+}
+static void tick_meas_child (void *p) { tick_run ((ticksc_t *) p, 0, 0, 1); }
+static int tick_main (int argc, char **argv) {
+  const char *one = vx_opt ("tick", 0); int ok = -1; long okk = -1;
+  if (one && sscanf (one, "%d/%ld", &ok, &okk) != 2) { fprintf (stderr, "bad --tick\n"); return 2; }
+  ticksc = mmap (0, sizeof (ticksc_t) * 8, PROT_READ | PROT_WRITE, MAP_SHARED | MAP_ANONYMOUS, -1, 0);
+  for (int kd = 0; kd < 4; kd++) { if (one && kd != ok) continue; ticksc[nticksc].kind = kd; ticksc[nticksc].n = 0; in_child (tick_meas_child, &ticksc[nticksc]); nticksc++; }
+  tickcum = calloc ((size_t) nticksc + 1, sizeof *tickcum);
+  long tot = 0;
+  for (long i = 0; i < nticksc; i++) { tickcum[i] = tot; tot += ticksc[i].n + 1; }
+  tickcum[nticksc] = tot;
+  if (one) { tickcum[0] = -okk; tot = 1; }
+  fprintf (stderr, HNAME ": part=tick kinds=%ld elements=%ld\n", nticksc, tot);
+  vx_count_name (0, "fault_raised"); vx_count_name (15, "failure_records_suppressed_as_duplicates");
+  vm_shared_init ();
+  vx_set_enum (tot, tick_elem, tick_describe);
+  int rc = vx_run (argc, argv, 0);
+  if (vx_opt ("out", 0)) { char kp[PATH_MAX]; snprintf (kp, sizeof kp, "%s.keys", vx_opt ("out", 0)); vm_write_key_totals (kp); }
+  return rc;
+}
+
+/* ------------------------------------------------------------------ part "stackedge": "Stack overflow" raised by a checked single push
+ * (push_number, push_real, push_object, push_undefined, copy_and_push_string, share_and_push_string, push_constant_string) exactly when
+ * sp == end_of_stack - 1, at every alignment of the pushing expression relative to the end of the stack (StackSize 150, 110 padding
+ * arguments, the recursion depth n = 0..35 above them shifts the alignment slot by slot from "fits" to "overflows in the padding").  Before that, the slot AT end_of_stack
+ * (reachable by the unchecked one-value pushes, e.g. F_LOCAL) is made to hold a stale reference-counted value: a local string that is
+ * freed by then, or an array still held by a global.  After the overflow: registers as before, reference count of the held array
+ * exact, audit evaluation over the held values, probe. */
+#define SE_NMIN 0
+#define SE_NMAX 35
+#define SE_PAD 125
+static const char *se_site_name[] = { "C:push_number", "C:push_object", "C:push_real", "C:push_undefined", "C:copy_and_push_string", "C:share_and_push_string",
+                                      "C:push_constant_string", "lpc:small-literal-in-a-push-group", "lpc:negative-byte-literal", "lpc:const0", "lpc:const1", "lpc:number-literal", "lpc:float-literal", "lpc:this_object()",
+                                      "lpc:efun-with-constant-argument" };
+static const char *se_site_expr[] = { 0, 0, 0, 0, 0, 0, 0, "7", "-7", "0", "1", "100000", "1.5", "this_object()", "ctime(0)" };
+#define SE_NSITES 15
+#define SE_NCSITES 7
+static const char *se_ctx_name[] = { "uncaught", "inside-catch" };
+static const char *se_stale_name[] = { "freed-local-string", "array-held-by-a-global" };
+typedef struct { int site, ctx, stale, n; } se_el;
+static se_el *se_els; static long se_nels;
+static int se_one_set; static se_el se_one;
+
+static int se_guarded_apply (object_t *o, const char *fn) {
+  /* as backend()/call_out do: 1 = returned, 0 = error reached the driver */
+  error_context_t e; int ok = 1;
+  save_context (&e);
+  if (setjmp (e.context)) { restore_context (&e); ok = 0; }
+  else { eval_cost = CONFIG_INT (__MAX_EVAL_COST__); svalue_t *r = apply (fn, o, 0, ORIGIN_DRIVER); (void) r; }
+  pop_context (&e);
+  return ok;
+}
+static void se_run (long idx) {
+  se_el *el = se_one_set ? &se_one : &se_els[idx];
+  vm_snap s0, s1;
+  snprintf (vm_ctx_desc, sizeof vm_ctx_desc, "stackedge site=%s %s stale=%s n=%d", se_site_name[el->site], se_ctx_name[el->ctx], se_stale_name[el->stale], el->n);
+  vx_obs ("%s", vm_ctx_desc);
+  /* the object: the alignment is varied by the recursion depth (one slot per level), which keeps the text short */
+  size_t cap = 1 << 13, len = 0; char *t = malloc (cap);
+  len += (size_t) snprintf (t + len, cap - len, "mixed *keep = ({ \"k\", \"l\" });\nint fill(mixed *a...) { return sizeof(a); }\nint pad(mixed *a...) { return sizeof(a); }\n"
+                            "int audit() { return sizeof(keep) + strlen(keep[0]) + strlen(keep[1]); }\n");
+  len += (size_t) snprintf (t + len, cap - len, el->stale ? "void leaf(int d) { mixed s = keep; fill(" : "void leaf(int d) { string s = \"dangling\" + d; fill(");
+  for (int i = 0; i < SE_PAD; i++) len += (size_t) snprintf (t + len, cap - len, i % 16 == 15 ? "7,\n" : "7,");
+  len += (size_t) snprintf (t + len, cap - len, "-7, s); }\nvoid st(int d) { if (d > 0) { st(d - 1); return; } leaf(d); }\n");
+  for (int n = SE_NMIN; n <= SE_NMAX; n++) len += (size_t) snprintf (t + len, cap - len, "void stale_%d() { st(%d); }\n", n, n);
+  len += (size_t) snprintf (t + len, cap - len, "mixed ed(int d) { if (d > 0) return ed(d - 1); return %spad(", el->ctx ? "catch(" : "(");
+  for (int i = 0; i < SE_PAD; i++) len += (size_t) snprintf (t + len, cap - len, i % 16 == 15 ? "7,\n" : "7,");
+  len += (size_t) snprintf (t + len, cap - len, "%s)); }\nmixed edge() { return ed(%d); }\n", el->site < SE_NCSITES ? "7" : se_site_expr[el->site], el->n);
+  object_t *o = hx_load ("/c05/se_gen", t);
+  free (t);
+  if (!o) { vm_fail ("C05:harness:stackedge-object", "cannot load the generated object: %s", hx_last_error); return; }
+  add_ref (o, "harness");
+  safe_apply_master_ob ("clear_errors", 0);
+  /* 1. the stale slot */
+  int planted = 0;
+  for (int n = SE_NMIN; n <= SE_NMAX; n++) {
+    char fn[32]; snprintf (fn, sizeof fn, "stale_%d", n);
+    end_of_stack->type = T_NUMBER;
+    se_guarded_apply (o, fn);
+    if (end_of_stack->type == (el->stale ? T_ARRAY : T_STRING)) { planted = n; break; }
+  }
+  if (!planted) { vm_fail ("C05:harness:stackedge-stale-slot", "no n in %d..%d leaves a stale %s in the slot at end_of_stack [%s]", SE_NMIN, SE_NMAX, se_stale_name[el->stale], vm_ctx_desc); }
+  array_t *keep = o->variables[0].type == T_ARRAY ? o->variables[0].u.arr : 0;
+  long ref0 = keep ? (long) keep->ref : -1;
+  safe_apply_master_ob ("clear_errors", 0);
+  /* 2. the overflow */
+  vm_snap_take (&s0);
+  vm_ignore_fields = 0; vm_changed_fields = 0;
+  int ok;
+  if (el->site < SE_NCSITES) {
+    /* the driver pushes arguments for an apply, as backend/comm do, with the stack nearly full */
+    error_context_t e; ok = 1;
+    save_context (&e);
+    if (setjmp (e.context)) { restore_context (&e); ok = 0; }
+    else {
+      while (sp < end_of_stack - 1 - (el->n % 4)) { ++sp; sp->type = T_NUMBER; sp->subtype = 0; sp->u.number = 7; }
+      for (int i = 0; i < 8; i++)
+        switch (el->site) {
+          case 0: push_number (7); break;
+          case 1: push_object (o); break;
+          case 2: push_real (1.5); break;
+          case 3: push_undefined (); break;
+          case 4: copy_and_push_string ("copy"); break;
+          case 5: share_and_push_string ("share"); break;
+          default: push_constant_string ("const"); break;
+        }
+    }
+    pop_context (&e);
+  } else
+    ok = se_guarded_apply (o, "edge");
+  vm_snap_take (&s1);
+  vx_count (0, ok ? 0 : 1);
+  vx_obs ("  -> stale slot planted by n=%d; the edge evaluation %s", planted, ok ? "returned" : "reached the driver with an error");
+  if (el->site < SE_NCSITES && ok) vm_fail ("C05:harness:stackedge-no-overflow", "eight checked pushes at the end of the stack raised nothing [%s]", vm_ctx_desc);
+  if (el->site >= SE_NCSITES && ((el->n == SE_NMIN && !ok) || (el->n == SE_NMAX && ok)))
+    vm_fail ("C05:harness:stackedge-range", "n=%d %s: the range does not bracket the end of the stack [%s]", el->n, ok ? "fits" : "overflows", vm_ctx_desc);
+  char scope[100]; snprintf (scope, sizeof scope, "stack-edge:%s", se_site_name[el->site]);
+  if (vm_selftest == 9) s1.sp++;
+  vm_snap_diff (&s0, &s1, 0, 1, scope, vm_ctx_desc);
+  /* 3. reference audit */
+  array_t *keep2 = o->variables[0].type == T_ARRAY ? o->variables[0].u.arr : 0;
+  long ref1 = keep2 ? (long) keep2->ref : -1;
+  if (vm_selftest == 10) ref1--;
+  if (keep2 != keep || ref1 != ref0) {
+    char key[160]; snprintf (key, sizeof key, "C05:reference-count-changed-by-stack-overflow:%s", se_site_name[el->site]);
+    vm_fail (key, "the array held by a global had %ld reference(s) before the overflow and %ld after it [%s]", ref0, ref1, vm_ctx_desc);
+  }
+  svalue_t *r = hx_apply (o, "audit", 0);
+  if (!r || r->type != T_NUMBER || r->u.number != 4) {
+    char key[160]; snprintf (key, sizeof key, "C05:held-values-damaged-by-stack-overflow:%s", se_site_name[el->site]);
+    vm_fail (key, "audit() over the values held by a global gives %s instead of 4 [%s]", r && r->type == T_NUMBER ? "another number" : "an error", vm_ctx_desc);
+  }
+  char pt[16384];
+  vm_clear_hooks ();
+  vm_probe (pt, sizeof pt);
+  if (strcmp (pt, ref_probe)) {
+    char tag[60], msg[400], key[120];
+    first_diff (ref_probe, pt, tag, sizeof tag, msg, sizeof msg);
+    snprintf (key, sizeof key, "C05:probe:%s", tag);
+    vm_fail (key, "probe transcript differs from a fresh driver: %s [%s]", msg, vm_ctx_desc);
+  }
+}
+static void se_elem (long idx) {
+  se_el *el = se_one_set ? &se_one : &se_els[idx];
+  snprintf (vm_ctx_desc, sizeof vm_ctx_desc, "stackedge site=%s %s stale=%s n=%d", se_site_name[el->site], se_ctx_name[el->ctx], se_stale_name[el->stale], el->n);
+  vm_run_isolated (se_run, idx);
+}
+static void se_describe (long idx, char *buf, size_t len) {
+  se_el *el = se_one_set ? &se_one : &se_els[idx];
+  snprintf (buf, len, "se=%d/%d/%d/%d\nstack overflow at the checked push %s, %s, alignment (recursion depth) %d; the slot at end_of_stack holds a stale %s",
+            el->site, el->ctx, el->stale, el->n, se_site_name[el->site], se_ctx_name[el->ctx], el->n, se_stale_name[el->stale]);
+}
+static int se_main (int argc, char **argv) {
+  const char *one = vx_opt ("se", 0);
+  if (one) { if (sscanf (one, "%d/%d/%d/%d", &se_one.site, &se_one.ctx, &se_one.stale, &se_one.n) != 4 || se_one.site < 0 || se_one.site >= SE_NSITES) { fprintf (stderr, "bad --se\n"); return 2; } se_one_set = 1; se_nels = 1; }
+  else {
+    se_els = calloc ((size_t) SE_NSITES * 2 * 2 * (SE_NMAX - SE_NMIN + 1), sizeof *se_els);
+    for (int st = 0; st < SE_NSITES; st++) for (int cx = 0; cx < 2; cx++) for (int sl = 0; sl < 2; sl++)
+      for (int n = SE_NMIN; n <= SE_NMAX; n++) {
+        if (st < SE_NCSITES && (cx || n >= SE_NMIN + 4)) continue;    /* C-level pushes: driver entry only, four start alignments */
+        se_els[se_nels++] = (se_el) { st, cx, sl, n };
+      }
+  }
+  fprintf (stderr, HNAME ": part=stackedge sites=%d elements=%ld\n", SE_NSITES, se_nels);
+  vx_count_name (0, "fault_raised"); vx_count_name (15, "failure_records_suppressed_as_duplicates");
+  vm_shared_init ();
+  vx_set_enum (se_nels, se_elem, se_describe);
+  int rc = vx_run (argc, argv, 0);
+  if (vx_opt ("out", 0)) { char kp[PATH_MAX]; snprintf (kp, sizeof kp, "%s.keys", vx_opt ("out", 0)); vm_write_key_totals (kp); }
+  return rc;
+}
+
 /* representatives of each frame class for the depth-3 pass */
 #define MINI "call,call_other,lfunp,catch,filter_fp,sort_fp,create_clone,m_object_name"
 #define CORE "call,inherited,call_other,lfunp,functional,efunp,boundfp,simul_efun,catch,filter_fp,sort_fp,map_mapping,create_load,create_clone,init_move,move_or_destruct,verb_string,m_valid_read,m_object_name"
@@ -533,7 +804,7 @@ int main (int argc, char **argv) {
     return c06_share_main (argc, argv);
   }
 #endif
-  hx_boot (mud, "MaxEvaluationCost 30000\n", 0);
+  hx_boot (mud, !strcmp (part, "tick") ? "MaxEvaluationCost 30000\nResetDuration 4\nCleanupDuration 4\n" : !strcmp (part, "stackedge") ? "MaxEvaluationCost 30000\nStackSize 150\nMaxCallDepth 100\n" : "MaxEvaluationCost 30000\n", 0);
   vx_count_name (0, "fault_raised"); vx_count_name (1, "caught_by_catch"); vx_count_name (2, "reached_driver");
   vx_count_name (3, "swallowed_by_safe_apply"); vx_count_name (4, "catch_points_checked");
   vm_preload_helpers ();
@@ -557,6 +828,8 @@ int main (int argc, char **argv) {
   if (vx_opt ("show-probe", 0)) fprintf (stderr, "%s", ref_probe);
   if (!strcmp (part, "api")) return api_main (argc, argv);
   if (!strcmp (part, "vital")) return vital_main (argc, argv);
+  if (!strcmp (part, "tick")) return tick_main (argc, argv);
+  if (!strcmp (part, "stackedge")) return se_main (argc, argv);
 
   const char *es = vx_opt ("elem", 0);
   if (es) {
